@@ -584,7 +584,8 @@ class CntField(RawField):
 
     def size(self, psize=0):
         try:
-            return struct.calcsize(self.format(psize))
+            # use the field's order: no native padding between counter and elements
+            return struct.calcsize(self.order + self.format(psize))
         except Exception:
             return float("Infinity")
 
@@ -620,8 +621,14 @@ class CntField(RawField):
     def pack(self, value, psize=0):
         if not hasattr(self,"fcount"):
             self.fcount = self.count
+        if value is None:
+            value = ()
         self.count = len(value)
-        if isinstance(value,list):
+        if self.count == 0:
+            return struct.pack(self.order + self.format(psize), 0)
+        if self.typename == "c" and isinstance(value, bytes):
+            value = [value[i:i+1] for i in range(len(value))]
+        if isinstance(value,(list,tuple)):
             res = struct.pack(self.order + self.format(psize),
                               self.count, *value)
         else:
